@@ -121,7 +121,9 @@ fn value(idx: u64, rng: &mut Rng, mon: &mut Mon) {
             let got = ref_forward(&rp, &layers, s);
             let dp = pos_dist(&got, &target);
             let dr = if axis_only { 0.0 } else { rot_angle(&got.r, &target.r) };
-            if !(dp <= 1e-6 + 1e-9 + 1e-12 * reach && dr <= 1e-6 + 1e-9) {
+            // the solver's 1e-6 rad is amplified by the lever arm of the tool-side transforms
+            let lever: f64 = layers.iter().map(|l| match l { Layer::Tool(f) | Layer::Frame(f) => norm(f.p), _ => 0.0 }).sum();
+            if !(dp <= 1e-6 * (1.0 + lever) + 1e-9 + 1e-12 * reach && dr <= 1e-6 + 1e-9) {
                 mon.violation(&format!("inverse-does-not-map-back:{}:{}", sname, e.name()), "an inverse answer does not map back through the stack onto the request", detail("map-back", json!({"entry": e.name(), "solution": jf(s), "dp": dp, "dr": dr, "tool_point_only": axis_only})));
             } else {
                 mon.held();
